@@ -5,7 +5,7 @@
 From Coq Require Import List Arith Lia Bool PeanoNat String.
 Import ListNotations.
 Notation length := List.length.
-From SP Require Import Skel Gen Expected NetA Inv Pres Dead Top Ghost GhostPres NetTop.
+From SP Require Import Skel Gen Expected ExpectedCones NetA Inv Pres Dead Top Ghost GhostPres NetTop.
 From SP Require Port.
 From SP Require WfModel AuditModel.
 From SP Require Result TaskFS TInv Glue Cor TaskTop.
@@ -152,6 +152,28 @@ Proof.
   rewrite (TaskTop.complete_is_result c f0 l2 W fR P s2 R2 D2 t x Ht Hx). reflexivity.
 Qed.
 
+(* T1, call cones: every function of scipipe that the functions above can reach (calls and function values, interface calls
+   resolved to every implementation) is one the models were compared with -- a helper that is new to the cone, or a new call
+   of an old one, changes a list (the lists are regenerated from /repo on every run; ExpectedCones.v holds the accepted ones) *)
+Theorem C04_cone_conforms :
+  strs_eqb cone_Process_Run exp_cone_Process_Run
+  && strs_eqb cone_Process_createTasks exp_cone_Process_createTasks
+  && strs_eqb cone_BaseProcess_receiveOnInPorts exp_cone_BaseProcess_receiveOnInPorts
+  && strs_eqb cone_BaseProcess_receiveOnInParamPorts exp_cone_BaseProcess_receiveOnInParamPorts
+  && strs_eqb cone_taskQueue_NextTaskDone exp_cone_taskQueue_NextTaskDone
+  && strs_eqb cone_InPort_Send exp_cone_InPort_Send
+  && strs_eqb cone_InPort_CloseConnection exp_cone_InPort_CloseConnection
+  && strs_eqb cone_InParamPort_Send exp_cone_InParamPort_Send
+  && strs_eqb cone_InParamPort_CloseConnection exp_cone_InParamPort_CloseConnection
+  && strs_eqb cone_OutPort_Send exp_cone_OutPort_Send
+  && strs_eqb cone_OutPort_Close exp_cone_OutPort_Close
+  && strs_eqb cone_OutParamPort_Send exp_cone_OutParamPort_Send
+  && strs_eqb cone_OutParamPort_Close exp_cone_OutParamPort_Close
+  && strs_eqb cone_BaseProcess_CloseOutPorts exp_cone_BaseProcess_CloseOutPorts
+  && strs_eqb cone_InParamPort_FromStr exp_cone_InParamPort_FromStr
+  && strs_eqb cone_Sink_Run exp_cone_Sink_Run = true.
+Proof. vm_compute. reflexivity. Qed.
+
 Print Assumptions C04_code_conforms.
 Print Assumptions C04_tasks_are_zip.
 Print Assumptions C04_emitted_exactly_once.
@@ -165,3 +187,4 @@ Print Assumptions C04_port_closes_with_last.
 Print Assumptions C04_port_complete.
 Print Assumptions C04_port_progress.
 Print Assumptions C04_nonvacuous.
+Print Assumptions C04_cone_conforms.
